@@ -89,6 +89,7 @@ namespace {
       impl::Expr_list* burst_xlist = nullptr;
       const ipr::Type* burst_chain = nullptr;
       std::uint64_t burst_words = 0;
+      std::vector<std::pair<const ipr::Identifier*, std::u8string>> burst_ids;   // every identifier of the pool bursts, with its spelling
 
       impl::Region* root()
       {
@@ -525,7 +526,10 @@ namespace {
       }
       else if (kind == "pool") {                      // string arena + map + identifier tree
          ob.ref(L.get_identifier(word("zzburst")));
-         for (std::size_t i = 0; i < n; ++i) L.get_identifier(word("zzburst"));
+         for (std::size_t i = 0; i < n; ++i) {
+            auto w = word("zzburst");
+            cx->burst_ids.emplace_back(&L.get_identifier(w), w);      // never returned to the model; re-read in every round (@burst)
+         }
       }
       else if (kind == "deque") {                     // obj_sequence<Enumerator> of ONE enum
          if (cx->burst_enum == nullptr) {
@@ -679,6 +683,17 @@ namespace {
       for (auto& m : cx->memberships) if (m.refetch() != m.member) addr_ok = false;
       std::cout << "@addr=" << (addr_ok ? 1 : 0) << '\n';
       std::cout << "@stable=" << (stable ? 1 : 0) << '\n';
+      // the identifiers of the pool bursts still spell what they were made from (storage growth must not alter earlier words)
+      std::size_t burst_bad = 0;
+      const ipr::Identifier* first_bad = nullptr;
+      for (auto& [id, w] : cx->burst_ids)
+         if (id->string().characters() != std::u8string_view(w)) { if (burst_bad++ == 0) first_bad = id; }
+      std::cout << "@burst=" << (burst_bad == 0 ? 1 : 0) << '\n';
+      if (first_bad != nullptr) {
+         auto now = first_bad->string().characters();
+         std::cout << "#D burst: " << burst_bad << " of " << cx->burst_ids.size() << " identifiers created by a pool burst changed their spelling; the first now reads `"
+                   << std::string(now.begin(), now.end()) << "`\n";
+      }
       std::cout << "#H " << cx->rounds << ' ' << ob.count() << ' ' << std::hex << acc << std::dec << '\n';
       if (dump_all) std::cout << all << '\n';
    }
